@@ -126,10 +126,11 @@ def malformed_stream(rnd, tier, per_seed=10):
             cases.append(('SCTP', b2s(pkt), 'stray-bytes-in-chunk'))
             if r_ == 1:
                 cases.append(('IPv6', b2s(P.ipv6(rnd, pkt, 132)), 'stray-bytes-in-chunk'))
-    for kind in ('params', 'data', 'sack'):
+    for kind in ('params', 'data', 'sack', 'bigparam', 'jumbo', 'data-coap'):
         big, _ = P.sctp_large(rnd, kind)
         cases.append(('SCTP', b2s(big), 'large-well-formed'))
-        cases.append(('IPv4', b2s(P.ipv4(rnd, big, 132)), 'large-well-formed'))
+        if len(big) + 20 <= 65535:
+            cases.append(('IPv4', b2s(P.ipv4(rnd, big, 132)), 'large-well-formed'))
     for _ in range(12 if T else 3):
         j = P.sctp_jumbo_malformed(rnd)
         cases.append(('SCTP', b2s(j), 'jumbo-valueless-chunk'))
